@@ -17,6 +17,7 @@ package main
 // properties are selected.
 
 import (
+	"sort"
 	"strings"
 	"unicode"
 
@@ -38,7 +39,30 @@ var gp *Prog
 
 func (p *Prog) initHelperSites() {
 	gp = p
+	// generic bodies are not among the reachable functions (only their instances are), but rules
+	// anchored by name analyse them: their call sites count as well
+	fns := append([]*ssa.Function{}, p.srcFns...)
+	seen := map[*ssa.Function]bool{}
 	for _, f := range p.srcFns {
+		seen[f] = true
+	}
+	var origins []*ssa.Function
+	for f := range p.allFns {
+		if o := f.Origin(); o != nil && !seen[o] && len(o.Blocks) > 0 && p.inMod(o) {
+			seen[o] = true
+			origins = append(origins, o)
+		}
+	}
+	sort.Slice(origins, func(i, j int) bool { return origins[i].Pos() < origins[j].Pos() })
+	for _, o := range origins {
+		for _, g := range plainWithAnons(o) {
+			if !seen[g] || g == o {
+				seen[g] = true
+				fns = append(fns, g)
+			}
+		}
+	}
+	for _, f := range fns {
 		for _, b := range f.Blocks {
 			for _, in := range b.Instrs {
 				c, ok := in.(ssa.CallInstruction)
@@ -496,4 +520,13 @@ func expandReturns(f *ssa.Function) []*ssa.Return {
 	}
 	walk(f, 0)
 	return out
+}
+
+// eachVInstr is eachInstr over root and the transparent helpers it calls; fn runs with the call
+// chain of the instruction installed, so that helper parameters resolve to that chain's arguments.
+func eachVInstr(root *ssa.Function, fn func(ssa.Instruction)) {
+	for _, vi := range virtualInstrs(root) {
+		vi := vi
+		vi.run(func() { fn(vi.in) })
+	}
 }
